@@ -186,7 +186,7 @@ CLAIMED = {
             "purpose's SLIP-132 version and every row (path, address kind of the purpose, compressed SEC, compressed WIF) "
             "for accounts up to 2^31-1 and intervals up to 2^31, the master echo, the Wasabi key and fingerprint and the nine "
             "BIP85 entries; the library's JSON rendering is parsed back by TLC's own JSON reader and compared with the tree.",
-            "Rows per purpose are capped (<= 8) to bound Base58 cost; primitive values are oracle tables.",
+            "Rows per purpose are capped (<= 32) to bound Base58 cost; primitive values are oracle tables.",
             "DESIGN.md section 5 C06"),
     "C08": ("TLA+ Entropy system model (OS stream, seedable PRNG, histories; TLC + negative-test deviations) + replay of "
             "TLC-simulated histories on the real library with the OS source wrapped and fed, + TLC trace validation of each New",
